@@ -6,7 +6,7 @@
 set -u
 ID=$1; DEMO=$2; SUITE=${3:-}
 export GOFLAGS=-mod=mod GOPROXY=off GOSUMDB=off GOTOOLCHAIN=local
-SRC=/tmp/seed/$ID
+SRC=${SEED_ROOT:-/tmp/seed}/$ID
 WT=/tmp/seedverify.$ID.$$
 git -C /repo worktree add -q --detach $WT HEAD || exit 2
 trap "git -C /repo worktree remove --force $WT" EXIT
